@@ -227,6 +227,10 @@ def run_graph(case):
     ref = {}
     for name, op in alphabet:
         ref[name] = step(copy.deepcopy(model), op)
+        if ref[name].get("data_changed"):
+            # the FIRST predict a data object ever sees (later ones may find the object already altered and change nothing more)
+            viol.append({"clause": "predict_modifies_data_object", "key": dict(key0),
+                         "detail": f"{name} (first use of this data object): data object attributes changed: {ref[name]['data_changed']}"})
     # reference must itself be reproducible
     for name, op in alphabet[:3]:
         again = step(copy.deepcopy(model), op)
